@@ -104,8 +104,8 @@ LineCols(n) == CASE n % 6 = 0 -> <<<<99, 104, 114, 49>>, <<115, 114, 99>>, <<103
                  [] n % 6 = 2 -> <<<<50, 76>>, <<70, 108, 121, 66, 97, 115, 101>>, <<67, 68, 83>>, <<53, 51, 54, 56, 55, 48, 57, 49, 49>>, <<53, 51, 54, 56, 55, 48, 57, 49, 51>>, <<49, 101, 45, 53>>, <<46>>, <<50>>>>
                  [] n % 6 = 3 -> <<<<99, 116, 103, 95, 49, 46, 49>>, <<97, 45, 98>>, <<102, 105, 118, 101, 95, 112, 114, 105, 109, 101, 95, 85, 84, 82>>, <<49>>, <<49>>, <<55>>, <<43>>, <<46>>>>
                  \* exactly ONE of start / end is '.'
-                 [] n % 6 = 4 -> <<<<99, 104, 114, 49>>, <<115>>, <<103, 101, 110, 101>>, <<46>>, <<55, 55>>, <<46>>, <<43>>, <<46>>>>
-                 [] OTHER -> <<<<99, 104, 114, 49>>, <<115>>, <<103, 101, 110, 101>>, <<49, 50>>, <<46>>, <<46>>, <<45>>, <<46>>>>
+                 [] n % 6 = 4 -> <<<<116, 114, 97, 99, 107, 49, 50>>, <<115>>, <<103, 101, 110, 101>>, <<46>>, <<55, 55>>, <<46>>, <<43>>, <<46>>>>
+                 [] OTHER -> <<<<98, 114, 111, 119, 115, 101, 114, 95, 99, 116, 103>>, <<115>>, <<103, 101, 110, 101>>, <<49, 50>>, <<46>>, <<46>>, <<45>>, <<46>>>>
 LineExtra(n) == CASE (n \div 6) % 3 = 0 -> <<>> [] (n \div 6) % 3 = 1 -> <<<<120>>>> [] OTHER -> <<<<101, 49>>, <<>>, <<101, 51>>>>      \* n in 0..17: 6 column shapes x 3 extras
 
 InG(a, d) == a = <<>> \/ InGrammar(a, d)
